@@ -5,8 +5,11 @@
 //!   c03 pdl <prune 0|1> <pdl>                (prune = RedeemNode::prune with the dummy environment)
 //!   c06 run <env desc> <pdl>
 //!   c06 rp_budget <budget>                   (run_program(unit, Everything, Some(budget), None))
+//!   c06 info <pdl>                           (final arrows of every node with the root 1 -> 1, CMRs of the right
+//!                                             children of disconnect nodes: the data Core/Run.v run_eval wants)
 //!   c06 classes <n>                          (classification tables for codes 0..-(n-1))
 //!   c03 jetcodes                             (bit codes of all Elements jets)
+//!   c03 nodecmrs <prog hex|-> <wit hex|->    (CMR of every node of the decoded program, post order)
 //!
 //! Result layout of `c03` (all numbers):
 //!   pdl only:  0 <plen> <prog bytes> <wlen> <wit bytes>   |  1 <build error code>
@@ -477,6 +480,25 @@ fn run_c03_inner(t: &[&str]) -> Vec<u128> {
             }
             out
         }
+        // 0 <n> <n x 32 bytes>: CMRs of the nodes of the decoded program in post order (InternalSharing: the
+        // order of the encoding with hidden entries skipped)  |  1 when Rust does not decode the pair
+        "nodecmrs" => {
+            let p = unhex(t[1]);
+            let w = unhex(t[2]);
+            match rust_decode(&p, &w) {
+                RustOut::Ok(prog) => {
+                    let mut out = vec![0, 0];
+                    let mut n = 0u128;
+                    for d in prog.as_ref().post_order_iter::<InternalSharing>() {
+                        push_bytes(&mut out, d.node.cmr().as_ref());
+                        n += 1;
+                    }
+                    out[1] = n;
+                    out
+                }
+                RustOut::Err(..) => vec![1],
+            }
+        }
         "pdl" => {
             let prune = t[1] == "1";
             match build_program(t[2], prune) {
@@ -550,14 +572,24 @@ fn run_c06_inner(t: &[&str]) -> Vec<u128> {
             };
             let e = env::build(t[1], p.cmr());
             // Rust
+            let mut pruned: Option<Vec<u8>> = None;
             let rk = match guarded(|| match BitMachine::for_program(&p) {
-                Err(_) => 4u128,
+                Err(_) => (4u128, None),
                 Ok(mut mac) => match mac.exec(&p, &e) {
-                    Ok(_) => 0,
-                    Err(x) => exec_class(&x),
+                    Ok(_) => (0, None),
+                    Err(x) => {
+                        let c = match &x {
+                            simplicity::bit_machine::ExecutionError::ReachedPrunedBranch(c) => Some(c.as_ref().to_vec()),
+                            _ => None,
+                        };
+                        (exec_class(&x), c)
+                    }
                 },
             }) {
-                Some(k) => k,
+                Some((k, c)) => {
+                    pruned = c;
+                    k
+                }
                 None => 9,
             };
             // C on the same marshalled environment, no anti-DoS checks
@@ -598,6 +630,52 @@ fn run_c06_inner(t: &[&str]) -> Vec<u128> {
             out.extend(env::summary(&e));
             out.push(89);
             push_bytes(&mut out, p.cmr().as_ref());
+            // the CMR carried by Rust's ReachedPrunedBranch (which assertion failed)
+            if let Some(c) = pruned {
+                out.push(90);
+                push_bytes(&mut out, &c);
+            }
+            out
+        }
+        // 0 then per node `4 <src> <tgt>` (types as numbers) or `5` (hidden), then `8 <index> <32 bytes>` for the
+        // right child of every disconnect node  |  1 <error code>
+        "info" => {
+            let specs = prog::parse_prog(t[1]);
+            let arr = match prog::arrows(&specs, true) {
+                Ok(a) => a,
+                Err(e) => return vec![1, prog::err_code(&e)],
+            };
+            let mut out = vec![0];
+            for x in arr {
+                match x {
+                    None => out.push(5),
+                    Some((s, tg)) => {
+                        out.push(4);
+                        prog::ty_nums(&s, &mut out);
+                        prog::ty_nums(&tg, &mut out);
+                    }
+                }
+            }
+            let cm: Vec<(usize, Vec<u8>)> = simplicity::types::Context::with_context(|ctx| {
+                let nodes = match prog::build(&ctx, &specs, &|_| None) {
+                    Ok(n) => n,
+                    Err(_) => return vec![],
+                };
+                let mut v = vec![];
+                for s in specs.iter() {
+                    if let prog::NodeSpec::Disconnect(_, Some(r)) = s {
+                        if let Some(n) = &nodes[*r] {
+                            v.push((*r, n.cmr().as_ref().to_vec()));
+                        }
+                    }
+                }
+                v
+            });
+            for (i, c) in cm {
+                out.push(8);
+                out.push(i as u128);
+                out.extend(c.iter().map(|b| *b as u128));
+            }
             out
         }
         // regression for the fixed finding F-C03 (corpus/C06/run_program_budget.case): run_program with a budget
